@@ -4,7 +4,13 @@
 #include <initializer_list>
 struct Rng {
 	std::uint64_t s;
-	explicit Rng(std::uint64_t seed) : s(seed * 0x9E3779B97F4A7C15ULL + 0x1234567ULL) {}
+	// the seed is hashed first: consecutive seeds must not give shifted copies of one stream
+	explicit Rng(std::uint64_t seed) : s(0) {
+		std::uint64_t z = (seed + 0x1234567ULL) * 0xD6E8FEB86659FD93ULL;
+		z = (z ^ (z >> 32)) * 0xD6E8FEB86659FD93ULL;
+		z = (z ^ (z >> 32)) * 0xD6E8FEB86659FD93ULL;
+		s = z ^ (z >> 32);
+	}
 	std::uint64_t next() {
 		std::uint64_t z = (s += 0x9E3779B97F4A7C15ULL);
 		z = (z ^ (z >> 30)) * 0xBF58476D1CE4E5B9ULL;
